@@ -189,9 +189,6 @@ mutant('c13_split_skips_empty_matches', 'C13', ['C13'], 'split_by_match advances
 mutant('c13_replace_dotall_only', 'C13', ['C13'], 'replace passes only DOTALL (line anchors change meaning)', 'multi-line texts with ^ / $ patterns',
        [(PRE, '        return _re.sub(str(self), repl, source, count, flags=self.__flags)', '        return _re.sub(str(self), repl, source, count, flags=_re.DOTALL)')])
 # ---- C14
-mutant('c14_right_edge_unclipped', 'C14', ['C14'], 'context window: right edge is not clipped for n_right > 7', 'window sizes larger than the remaining text',
-       [(PRE, '            yield source[max(start - n_left, 0):min(end + n_right, len(source))]',
-         '            yield source[max(start - n_left, 0):(min(end + n_right, len(source)) if n_right <= 7 else end + n_right)]'),], control=True)
 mutant('c14_exact_match_strips_newline', 'C14', ['C14'], 'is_exact_match(path) strips a trailing newline of the file', 'files ending in a newline',
        [(PRE, '''        if is_path:
             source = self.__extract_text(source)
@@ -203,8 +200,14 @@ mutant('c14_left_window_off_by_one_at_start', 'C14', ['C14'], 'context window: l
        [(PRE, '            yield source[max(start - n_left, 0):min(end + n_right, len(source))]',
          '            yield source[max(start - n_left, 0 if n_left <= start else min(1, start)):min(end + n_right, len(source))]')])
 # ---- C15
-mutant('c15_filler_starts_at_one', 'C15', ['C15'], "Integer: a non-first filler digit starts at '1' instead of '0'", 'numerals shorter than the upper bound with an inner zero',
-       [(ESS, "                d_start = '1' if is_first else '0'", "                d_start = '1'")])
+mutant('c15_fourth_digit_nine', 'C15', ['C15'], "Integer: away from the range's own prefixes the fourth digit may not be 9",
+       'numerals of at least four digits whose fourth digit is 9 and whose first three digits are neither the start nor the end prefix',
+       [(ESS, '''                    _asr.NotPrecededBy(
+                        _cl.AnyDigit(),
+                        *[p for p in (p_start, p_end) if p._get_type() != _pre._Type.Empty]''',
+         '''                    _asr.NotPrecededBy(
+                        _cl.AnyDigit() if i != 3 else _cl.AnyBetween('0', '8'),
+                        *[p for p in (p_start, p_end) if p._get_type() != _pre._Type.Empty]''')])
 # ---- C16
 mutant('c16_no_integer_part_for_start_one', 'C16', ['C16'], "Decimal: the 'no integer part' alternative is also offered when start == 1", ".5 against Decimal(1, ...)",
        [(ESS, '''        integer_part = Integer(start, end, include_sign, is_extensible)
